@@ -25,4 +25,39 @@ inductive IdxOp
   | check         -- the bounds check when check_bounds
   deriving DecidableEq, Repr
 
+/-- whose attribute: the volume being matched (`self` / `new_volume`) or the target (`other`) -/
+inductive GObj
+  | own
+  | other
+  deriving DecidableEq, Repr
+
+/-- a per-axis sequence of `match_geometry` -/
+inductive AxisSrc
+  | unit (o : GObj)       -- o.unit_vectors()
+  | spacing (o : GObj)    -- o.spacing
+  | shape (o : GObj)      -- o.spatial_shape
+  | steps                 -- step_sizes
+  deriving DecidableEq, Repr
+
+/-- what the crop/pad loop forwards into its (translated) body, extracted from the source (TC09i) -/
+structure PlanArgs where
+  offsetVec : AxisSrc
+  offsetFrom : GObj
+  offsetTo : GObj
+  spacing : AxisSrc
+  step : AxisSrc
+  outShape : AxisSrc
+  inShape : AxisSrc
+  cropInit : Bool
+  padInit : Bool
+  deriving DecidableEq, Repr
+
+/-- what the alignment loops forward into their (translated) body, extracted from the source (TC09j) -/
+structure AlignArgs where
+  u : AxisSrc
+  s : AxisSrc
+  v : AxisSrc
+  t : AxisSrc
+  deriving DecidableEq, Repr
+
 end HdVerif.Match
